@@ -72,7 +72,7 @@ CHECKS = {
     "C13": dict(
         category="model_checking",
         technique="exhaustive enumeration of all 2^(n-1) fragmentations of every input on the real incremental parser, differential against the one-shot parse plus a reference viable-prefix oracle",
-        text="For every grammar of a fragmentation family (multi-character literals, regexes, alternatives sharing prefixes, repetitions, bytes/bit fields) and every input up to length 5 (thorough 7) every composition into consecutive fragments is fed through new_parse()/consume(); complete trees after the last fragment must equal the one-shot result, and can_continue() may be False only if no extension is in the reference language.",
+        text="For every grammar of a fragmentation family (multi-character literals, regexes, alternatives sharing prefixes, repetitions, bytes/bit fields) and every input up to length 5 (thorough: 6, and operator depth 2 at length 5) every composition into consecutive fragments is fed through new_parse()/consume(); complete trees after the last fragment must equal the one-shot result, and can_continue() may be False only if no extension is in the reference language.",
         note="Grammars with an empty-deriving body under */+ are included since the C06 repair. Two regex-split deviations are recorded known findings.",
         design="4 C13",
     ),
